@@ -208,6 +208,16 @@ TWINS = [
     ('quat-ctor-no-shape', 'C07', 'quaternion.py', "                if not all(x.shape == (4,) for x in self.data):\n                    raise ValueError('quaternion value must be a 4-vector')\n", '', 'R5', 'Quaternion'),
     ('uq-ctor-shape1', 'C15', 'quaternion.py', '            elif isinstance(s, np.ndarray) and s.shape == (4,) and norm:\n                # UnitQuaternion(v) v is a non-unit ndarray(4): normalise it, as for the list form\n                self.data = [base.unit(s)]\n\n            elif isinstance(s, np.ndarray) and s.ndim == 2 and s.shape[1] == 4:', '            elif isinstance(s, np.ndarray) and s.shape[1] == 4:', 'R21', 'UnitQuaternion.__init__'),
     ('se2-ctor-len-first', 'C15', 'pose2d.py', '            elif argcheck.isscalar(x):\n                self.data = [tr.trot2(x, unit=unit)]\n            elif len(x) == 2:', '            elif len(x) == 2:', 'R21', 'SE2.__init__'),
+    # ---- rules added after seeded round d
+    ('getitem-double-wrap', 'C10', 'smuserlist.py', '            return self.__class__(self.data[i])\n', '            if i < 0:\n                i += len(self)\n            if i >= len(self):\n                raise IndexError("index out of range")\n            return self.__class__(self.data[i])\n', 'RL', '__getitem__'),
+    ('se3-inv-batched-Rt', 'C02', 'pose3d.py', '            return SE3([base.trinv(x) for x in self.A], check=False)', '            T = np.array(self.A)\n            Ti = np.zeros(T.shape, dtype=T.dtype)\n            Ti[:, :3, :3] = T[:, :3, :3].transpose(0, 2, 1)\n            Ti[:, :3, 3] = -np.einsum("nij,nj->ni", T[:, :3, :3], T[:, :3, 3])\n            Ti[:, 3, 3] = 1\n            return SE3(list(Ti), check=False)', 'R15', 'SE3.inv'),
+    ('se3-inv-batched-Rt-c09', 'C09', 'pose3d.py', '            return SE3([base.trinv(x) for x in self.A], check=False)', '            T = np.array(self.A)\n            Ti = np.zeros(T.shape, dtype=T.dtype)\n            Ti[:, :3, :3] = T[:, :3, :3]\n            Ti[:, :3, 3] = -np.einsum("nji,nj->ni", T[:, :3, :3], T[:, :3, 3])\n            Ti[:, 3, 3] = 1\n            return SE3(list(Ti), check=False)', 'R8', 'SE3.inv'),
+    ('tr2jac-transpose-order', 'C13', 'base/transforms3d.py', '        return np.block([[R.T, (base.skew(t)@R).T], [Z, R.T]])', '        return np.block([[R.T, base.skew(t).T @ R.T], [Z, R.T]])', 'R16', 'tr2jac'),
+    ('norm-sympy-force', 'C16', 'base/vectors.py', '        return sympy.sqrt(sum)', '        return sympy.powsimp(sympy.sqrt(sum), force=True)', 'R11e', 'norm'),
+    ('force-rmul-override', 'C20', 'spatialvector.py', '    def __rmul(right, left):', '    def __rmul__(right, left):', 'R8', 'SpatialForce.__rmul__'),
+    ('sv-ctor-share-list', 'C17', 'spatialvector.py', '            self.data = list(value.data)', '            self.data = value.data', 'R5', 'SpatialVector.__init__'),
+    ('sv-ctor-nested', 'C20', 'spatialvector.py', '            self.data = list(value.data)', '            self.data = [value.A]', 'R8', 'SpatialVector.__init__'),
+    ('distance-antiparallel', 'C19', 'geom3d.py', 'l1.v - l2.v * np.dot(l1.w, l2.w) / np.dot(l2.w, l2.w)', 'l1.v - l2.v * np.linalg.norm(l1.w) / np.linalg.norm(l2.w)', 'R23', 'distance'),
 ]
 
 
